@@ -9,7 +9,7 @@ broadcast use {crate::bitlemmas::bits64, vstd::arithmetic::mul::group_mul_basics
 //@ tags C02 C06 C07 C08 C11 C01
 //@ const math/bit_math.rs Q64_RESOLUTION Q64_MASK
 
-//@ fn math/bit_math.rs checked_mul_div -> r
+//@ fn math/bit_math.rs checked_mul_div -> r canary
     ensures
         d == 0 ==> r == Err::<u128, ErrorCode>(ErrorCode::DivideByZero),
         d != 0 && n0 * n1 > U128MAX() ==> r == Err::<u128, ErrorCode>(ErrorCode::MulDivOverflow),
@@ -33,7 +33,7 @@ broadcast use {crate::bitlemmas::bits64, vstd::arithmetic::mul::group_mul_basics
     proof { lemma_div_round_fits(p as int, d as int); }
 //@ end
 
-//@ fn math/bit_math.rs checked_mul_shift_right -> r
+//@ fn math/bit_math.rs checked_mul_shift_right -> r canary
     ensures
         (n0 == 0 || n1 == 0) ==> r == Ok::<u64, ErrorCode>(0u64),
         n0 * n1 > U128MAX() ==> r == Err::<u64, ErrorCode>(ErrorCode::MultiplicationShiftRightOverflow),
